@@ -20,7 +20,9 @@
    evaluates the clauses on (case, direct observation, wire observation).      *)
 EXTENDS Naturals, Sequences, FiniteSets, TLC
 
-Styles == {"wrapped", "out_bare", "empty", "bare"}
+\* bare_rec: bare style over a RECURSIVE class Node{a1: Node, a2: Integer}: the first field of the one argument is itself a Node, so a
+\* single positional Node is the FIELD a1 (arguments are passed field-wise), never the argument object itself
+Styles == {"wrapped", "out_bare", "empty", "bare", "bare_rec"}
 Rets   == {"none", "one", "two", "three", "gen", "ignored", "fault", "exc",
            "cplx", "ignored_cplx", "ignored_two"}     \* ignored_two: Ignored where TWO values are declared     \* one return value of a two-member complex type / Ignored where such a type is declared
 Nil == 0 - 1                         \* None
@@ -45,6 +47,7 @@ Cases ==
       /\ PrefixOk(c.modes)
       /\ (c.style = "empty" => Len(c.modes) = 0)
       /\ (c.style = "bare" => (Len(c.modes) = 2 /\ c.ret \in {"one", "fault", "none"}))   \* one complex argument, passed field-wise
+      /\ (c.style = "bare_rec" => (Len(c.modes) \in {1, 2} /\ c.ret \in {"one", "none"} /\ \A i \in 1..Len(c.modes) : c.modes[i] \in {"pos", "kw", "absent"}))
       /\ (c.style = "out_bare" => c.ret \in {"one", "fault", "exc", "gen", "cplx", "ignored_cplx"})
       /\ (c.ret \in {"cplx", "ignored_cplx"} => Len(c.modes) <= 1)
       /\ (c.ret \in {"two", "three"} => c.style = "wrapped")
@@ -90,4 +93,20 @@ Holds(n, c, o) == CASE n = "ArgsDirect" -> ArgsDirect(c, o) [] n = "ArgsWire" ->
                     [] n = "SameAsWire" -> SameAsWire(c, o) [] n = "OnceEach" -> OnceEach(c, o)
 \* the table's own law: whatever the mode, direct and wire expectations agree
 TableLaw == \A c \in Cases : ~Ign(c) => NullResult(c) = WireResult(c)
+
+\* ------------------------------------------------------------------- histories
+\* One NullServer, one wire endpoint, a HISTORY of operations: the request header is set (h1, h2), cleared, and the methods f and g -
+\* which return the header they see - are called.  A call sees the header in force WHEN IT IS MADE, on both paths.
+HOps == {"set1", "set2", "clear", "callf", "callg"}
+Histories == UNION {[1..n -> HOps] : n \in 1..4}
+RECURSIVE HdrAt(_, _)
+HdrAt(h, k) == IF k = 0 THEN "none" ELSE IF h[k] = "set1" THEN "h1" ELSE IF h[k] = "set2" THEN "h2"
+               ELSE IF h[k] = "clear" THEN "none" ELSE HdrAt(h, k - 1)
+RECURSIVE SeenFrom(_, _)
+SeenFrom(h, k) == IF k > Len(h) THEN <<>>
+                  ELSE (IF h[k] \in {"callf", "callg"} THEN << HdrAt(h, k - 1) >> ELSE <<>>) \o SeenFrom(h, k + 1)
+HistoryFails(h, o) == (IF o.direct = SeenFrom(h, 1) THEN {} ELSE {"HeaderDirect"}) \cup (IF o.wire = SeenFrom(h, 1) THEN {} ELSE {"HeaderWire"})
+                      \cup (IF o.direct = o.wire THEN {} ELSE {"SameAsWire"})
+ASSUME SeenFrom(<<"callf", "set1", "callf", "callg">>, 1) = <<"none", "h1", "h1">>
+ASSUME SeenFrom(<<"set1", "callf", "clear", "callf">>, 1) = <<"h1", "none">>
 =============================================================================
